@@ -39,6 +39,7 @@ def run(prog, chk):
     summaries = mutation_summaries(prog)
     r144(prog, chk, summaries)
     r144b(prog, chk)
+    r144c(prog, chk)
     r145(prog, chk)
     r146(prog, chk)
 
@@ -340,6 +341,44 @@ def _touches_glyph(prog, fi, node) -> bool:
     return True
 
 
+# ----------------------------------------------------------------------------- R14.4c
+def r144c(prog, chk):
+    """A verdict flag that starts False and is returned must only grow inside a
+    loop: every in-loop assignment is `flag = True`, mentions the flag itself
+    (flag = flag or x) or is `flag |= x`.  Otherwise a later iteration can
+    overwrite the True of an earlier one (a changed glyph is not reported)."""
+    from .common import loop_ancestors
+    n = 0
+    for fi in prog.ix.functions.values():
+        if not fi.module.name.startswith("ufo2ft.filters"):
+            continue
+        flags = set()
+        for r in A.returns_of(fi.node):
+            if isinstance(r.value, ast.Name):
+                defs = prog.reaching(fi, r.value.id, r.value)
+                if any(d.kind == "assign" and isinstance(d.value, ast.Constant) and d.value.value is False and isinstance(d.target, ast.Name) for d in defs):
+                    flags.add(r.value.id)
+        for v in sorted(flags):
+            for st in A.stmts_of(fi.node):
+                tgt = None
+                if isinstance(st, ast.Assign) and len(st.targets) == 1 and isinstance(st.targets[0], ast.Name) and st.targets[0].id == v:
+                    tgt, val = st.targets[0], st.value
+                elif isinstance(st, ast.AugAssign) and isinstance(st.target, ast.Name) and st.target.id == v:
+                    n += 1
+                    ok = isinstance(st.op, ast.BitOr)
+                    chk.ob("R14.4c", f"{fi.short}|{A.keytext(fi.node, st)}", ok, where(fi, st), detail="accumulating |=",
+                           message=f"{fi.short}: verdict flag `{v}` is combined with `{type(st.op).__name__}`: an earlier True can be lost")
+                    continue
+                if tgt is None or not loop_ancestors(prog, fi, st):
+                    continue
+                n += 1
+                ok = (isinstance(val, ast.Constant) and val.value is True) or v in A.names_in(val)
+                chk.ob("R14.4c", f"{fi.short}|{A.keytext(fi.node, st)}", ok, where(fi, st), detail=f"in-loop assignment of verdict flag `{v}` only grows",
+                       message=f"{fi.short}: the returned verdict flag `{v}` is overwritten inside a loop (`{T(st, 60)}`): a later iteration can reset "
+                               f"the True of an earlier one, so a changed glyph is not reported as modified")
+    chk.minimum("R14.4c", 3)
+
+
 # ----------------------------------------------------------------------------- R14.4b
 def _is_modified_set(prog, fi, e: ast.AST) -> bool:
     if isinstance(e, ast.Attribute) and e.attr == "modified":
@@ -575,6 +614,12 @@ def r146(prog, chk):
 
 
 MUTANTS = [
+    M("flatten verdict assigned per component (seeded C14b)", "ufo2ft/filters/flattenComponents.py", "_flattenGlyphComponents",
+      "if flattened_tuples[0] != (comp.baseGlyph, comp.transformation):\n    flattened = True", "flattened = flattened_tuples[0] != (comp.baseGlyph, comp.transformation)", rule="R14.4c"),
+    M("interpolatable flatten verdict of the last master only (fixed 9c7be88)", "ufo2ft/filters/flattenComponents.py", "FlattenComponentsIFilter.filter",
+      "flattened |= _flattenGlyphComponents(glyph, interpolatedLayer or glyphSet)", "flattened = _flattenGlyphComponents(glyph, interpolatedLayer or glyphSet)", rule="R14.4c"),
+    M("verdict accumulated with or", "ufo2ft/filters/flattenComponents.py", "FlattenComponentsIFilter.filter",
+      "flattened |= _flattenGlyphComponents(glyph, interpolatedLayer or glyphSet)", "flattened = _flattenGlyphComponents(glyph, interpolatedLayer or glyphSet) or flattened", kind="equiv"),
     M("filter applied to every glyph regardless of include", "ufo2ft/filters/base.py", "BaseFilter.__call__",
       "include(glyph) and filter_(glyph)", "filter_(glyph)", rule="R14.1"),
     M("interpolatable filter ignores include", "ufo2ft/filters/base.py", "BaseIFilter.__call__",
